@@ -9,8 +9,10 @@ import numpy
 import pandas
 from vf import core
 
-LEVEL = "exploration"
-EXPLANATION = "bounded stand-in: postcondition on the table printed by the real `run-static` callback for seeded synthetic inputs in all three modes; nothing is proved"
+LEVEL = "other"
+EXPLANATION = ("the VRH / unit-conversion / velocity statements of the real `run-static` callback are extracted by AST every run and executed unchanged on a "
+               "symbolic table of symbolic length (z3: assembly, tensor definitions, converters, velocities); the fits, the mode-specific table "
+               "construction and the printed table are a bounded run-time contract on the real command")
 RY_J, BOHR, EV = 2.1798723611030e-18, 5.29177210903e-11, 1.602176634e-19
 GPA = RY_J / BOHR ** 3 / 1e9
 ANG3 = (BOHR * 1e10) ** 3
@@ -53,11 +55,250 @@ def vrh(row, names):
     return KV, KR, (KV + KR) / 2, GV, GR, (GV + GR) / 2
 
 
+# =========================================================================================== deductive fragment
+# The VRH / unit-conversion / velocity statements of `main` are extracted from the current source by AST on every run
+# (the contiguous run of top-level statements of `main` from the `if` that assigns df.loc[:, "bm_V"] to the `if` that assigns
+# df.loc[:, "v_p"]) and executed UNCHANGED on a symbolic table of symbolic length.  Dropped by the extraction: everything before
+# (file reading, the fits, the mode-specific table construction, fill_cij, the density column) and after (sampling, printing).
+def extract_vrh_block(static):
+    import ast, inspect
+    src = open(inspect.getsourcefile(static)).read()
+    tree = ast.parse(src)
+    main = [n for n in tree.body if isinstance(n, ast.FunctionDef) and n.name == "main"]
+    if len(main) != 1:
+        raise core.OutsideSubset("cli/static.py: function main not found")
+    body = main[0].body
+
+    def assigns(node, col):
+        for a in ast.walk(node):
+            if isinstance(a, ast.Assign):
+                for t in a.targets:
+                    if isinstance(t, ast.Subscript) and col in [c.value for c in ast.walk(t.slice) if isinstance(c, ast.Constant)]:
+                        return True
+        return False
+    first = [i for i, st in enumerate(body) if isinstance(st, ast.If) and assigns(st, "bm_V")]
+    last = [i for i, st in enumerate(body) if isinstance(st, ast.If) and assigns(st, "v_p")]
+    if len(first) != 1 or len(last) != 1 or first[0] > last[0]:
+        raise core.OutsideSubset("cli/static.py: the VRH / velocity statements are not two top-level `if` blocks of main any more")
+    stmts = body[first[0]:last[0] + 1]
+    mod = ast.Module(body=stmts, type_ignores=[])
+    return compile(mod, inspect.getsourcefile(static), "exec"), (stmts[0].lineno, stmts[-1].end_lineno)
+
+
+def run_vrh_block(static, present):
+    """executes the extracted statements; returns (df stub, record)"""
+    import types, z3
+    from vf import symnp
+    from vf.symnp import SymArr, Dim, Sc, SymNumpy
+    code, span = extract_vrh_block(static)
+    n = Dim("nrow")
+    rec = {"span": span}
+
+    class Col(SymArr):
+        def to_numpy(self, *a, **k):
+            return self
+
+    def col(a):
+        if isinstance(a, Col):
+            return a
+        if symnp.is_arr(a):
+            c = Col(a.shape, a.elem)
+            return c
+        raise core.OutsideSubset("table column set to %r" % (a,))
+
+    class Loc:
+        def __init__(self, df): self.df = df
+
+        def __getitem__(self, k):
+            if not (isinstance(k, tuple) and len(k) == 2 and k[0] == slice(None) and isinstance(k[1], str)):
+                raise core.OutsideSubset("df.loc[%r]" % (k,))
+            return self.df[k[1]]
+
+        def __setitem__(self, k, v):
+            if not (isinstance(k, tuple) and len(k) == 2 and k[0] == slice(None) and isinstance(k[1], str)):
+                raise core.OutsideSubset("df.loc[%r] = ..." % (k,))
+            self.df[k[1]] = v
+
+    class DF:
+        def __init__(self, cols):
+            self.cols = dict(cols)
+            self.writes = []
+        @property
+        def loc(self): return Loc(self)
+        @property
+        def shape(self): return (n, len(self.cols))
+        @property
+        def columns(self): return list(self.cols)
+
+        def __getitem__(self, k):
+            if k not in self.cols:
+                raise KeyError(k)
+            return col(self.cols[k])
+
+        def __setitem__(self, k, v):
+            self.writes.append(k)
+            self.cols[k] = col(v)
+    cols = {"V": SymArr.atom("V_in", (n,), lambda i, v: v > 0), "F": SymArr.atom("F_in", (n,)), "P": SymArr.atom("P_in", (n,)),
+            "density": SymArr.atom("rho_in", (n,), lambda i, v: v > 0)}
+    for (I, J) in present:
+        cols["c%d%d" % (I, J)] = SymArr.atom("tab_c%d%d" % (I, J), (n,))
+    df = DF(cols)
+
+    def inv_stub(M):
+        rec["inv_arg"] = M
+        fs = {}
+
+        def elem(idx):
+            i, j = z3.simplify(idx[1]), z3.simplify(idx[2])
+            if not (z3.is_int_value(i) and z3.is_int_value(j)):
+                raise core.OutsideSubset("symbolic matrix index into the inverse")
+            key = (i.as_long(), j.as_long())
+            if key not in fs:
+                fs[key] = z3.Function("SINV_%d%d" % key, z3.IntSort(), z3.RealSort())
+            return fs[key](idx[0])
+        rec["inv"] = SymArr(M.shape, elem)
+        return rec["inv"]
+    K = {nm: z3.Real("K_" + nm) for nm in ("ang3", "ev", "gpa", "gcm3", "kms")}
+    rec["K"] = K
+
+    def conv(nm):
+        def f(a):
+            rec.setdefault("conv", []).append(nm)
+            return a * Sc(K[nm])
+        return f
+    ns = {"numpy": SymNumpy(linalg={"inv": inv_stub}), "itertools": itertools, "df": df, "input02": True,
+          "_to_ang3": conv("ang3"), "_to_ev": conv("ev"), "_to_gpa": conv("gpa"), "_to_gcm3": conv("gcm3"), "_to_kms": conv("kms")}
+    exec(code, ns)
+    return df, rec, cols, n
+
+
+def vrh_obligations(s, static):
+    import z3
+    from vf import symnp, smt
+    from cij.util import c_
+    tier = s.tier
+    full = [(I, J) for I in range(1, 7) for J in range(I, 7)]
+    ortho = [(1, 1), (2, 2), (3, 3), (1, 2), (1, 3), (2, 3), (4, 4), (5, 5), (6, 6)]
+
+    def check(present, label):
+        def ob():
+            df, rec, cols, n = run_vrh_block(static, present)
+            r = z3.Int("r")
+            facts = [r >= 0, r < n.n]
+            if "inv_arg" not in rec:
+                return core.refuted("callsite", "numpy.linalg.inv is not called", witness_id="no-inv")
+            M, INV = rec["inv_arg"], rec["inv"]
+            if not symnp.same_shape(M.shape, (n, 6, 6)):
+                return core.refuted("symnp", "matrix handed to inv has shape %s" % (M.shape,), witness_id="inv-shape")
+            goals = []
+            C, S = {}, {}
+            for I in range(6):
+                for J in range(6):
+                    key = (min(I, J) + 1, max(I, J) + 1)
+                    want = cols["c%d%d" % key].elem((r,)) if key in present else z3.RealVal(0)
+                    got = M.elem((r, z3.IntVal(I), z3.IntVal(J)))
+                    rr = smt.prove(got == want, facts, tier=tier)
+                    if rr.status != core.PROVED:
+                        rr.detail = "entry (%d,%d) of the matrix handed to inv is %s, specified %s | %s" % (I + 1, J + 1, got, want, rr.detail)
+                        rr.witness_id = "assembly(%d,%d)" % (I + 1, J + 1)
+                        return rr
+                    C[(I + 1, J + 1)] = want
+                    S[(I + 1, J + 1)] = INV.elem((r, z3.IntVal(I), z3.IntVal(J)))
+            # tensor definitions through voigt.py's own index maps (as in C07): S_ijkl = s_IJ / (f_I f_J)
+            f = lambda I: 1 if I <= 3 else 2
+
+            def T(tab, scale):
+                out = {}
+                for i, j, k, l in itertools.product((1, 2, 3), repeat=4):
+                    key = c_(i, j, k, l).voigt
+                    a = tab[key]
+                    out[(i, j, k, l)] = a / (f(key[0]) * f(key[1])) if scale else a
+                return out
+            Cn, Sn = T(C, False), T(S, True)
+            iijj = lambda X: sum(X[(i, i, j, j)] for i in (1, 2, 3) for j in (1, 2, 3))
+            ijij = lambda X: sum(X[(i, j, i, j)] for i in (1, 2, 3) for j in (1, 2, 3))
+            KV, GV = iijj(Cn) / 9, (3 * ijij(Cn) - iijj(Cn)) / 30
+            KR, GR = 1 / iijj(Sn), 15 / (6 * ijij(Sn) - 2 * iijj(Sn))
+            spec = {"bm_V": KV, "bm_R": KR, "bm_VRH": (KV + KR) / 2, "G_V": GV, "G_R": GR, "G_VRH": (GV + GR) / 2}
+            for nm, want in spec.items():
+                if nm not in df.cols:
+                    return core.refuted("callsite", "column %s is not written" % nm, witness_id="missing:" + nm)
+                rr = smt.prove(df.cols[nm].elem((r,)) == want, facts, tier=tier)
+                if rr.status != core.PROVED:
+                    rr.detail = "column %s is not the tensor definition | %s" % (nm, rr.detail[:600])
+                    rr.witness_id = "vrh:" + nm
+                    return rr
+            Kc = rec["K"]
+            unit = {"V": cols["V"].elem((r,)) * Kc["ang3"], "F": cols["F"].elem((r,)) * Kc["ev"], "P": cols["P"].elem((r,)) * Kc["gpa"],
+                    "density": cols["density"].elem((r,)) * Kc["gcm3"]}
+            for nm, want in unit.items():
+                rr = smt.prove(df.cols[nm].elem((r,)) == want, facts, tier=tier)
+                if rr.status != core.PROVED:
+                    rr.detail = "column %s after the unit block is %s, specified: converted exactly once by its own converter | %s" % (nm, df.cols[nm].elem((r,)), rr.detail[:300])
+                    rr.witness_id = "unit:" + nm
+                    return rr
+            for nm in list(present):
+                cn = "c%d%d" % nm
+                if not df.cols[cn].elem((r,)).eq(cols[cn].elem((r,))):
+                    return core.refuted("callsite", "the modulus column %s is modified by the block" % cn, witness_id="frame:" + cn)
+            rho = unit["density"]
+            vel = {"v_p": spec["bm_VRH"] + 4 * spec["G_VRH"] / 3, "v_s": spec["G_VRH"], "v_phi": spec["bm_VRH"]}
+            for nm, mod in vel.items():
+                if nm not in df.cols:
+                    return core.refuted("callsite", "column %s is not written" % nm, witness_id="missing:" + nm)
+                got = df.cols[nm].elem((r,))
+                want = Kc["kms"] * symnp.SQRT(mod / rho)
+                nz = symnp.SumNormalizer(facts, tier)
+                rr = nz.decide(got == want, nz.facts(got == want), nm)
+                if rr.status != core.PROVED:
+                    rr.detail = "column %s is not TO_KMS(sqrt(modulus / density[g/cm3])) | %s" % (nm, rr.detail[:600])
+                    rr.witness_id = "vel:" + nm
+                    return rr
+            return core.proved("z3", "lines %d-%d of cli/static.py executed on a symbolic table: matrix handed to inv = symmetric assembly of the %d columns "
+                                     "(0 elsewhere), six averages = tensor definitions of it and its inverse, V/F/P/density converted once, "
+                                     "v = TO_KMS(sqrt(modulus/density))" % (rec["span"][0], rec["span"][1], len(present)),
+                               sample="forall rows r: bm_V[r] == C_iijj/9, G_V == (3C_ijij - C_iijj)/30, bm_R == 1/S_iijj, G_R == 15/(6S_ijij - 2S_iijj), "
+                                      "v_p == K_kms*sqrt((K_VRH + 4G_VRH/3)/(K_gcm3*rho))")
+        s.oblige("C18.vrh_block[%s]" % label, ob, ["cli/static.main (VRH, unit and velocity statements, extracted by AST)"])
+    check(full, "all 21 columns")
+    check(ortho, "nine orthotropic columns")
+
+    def canary():
+        # a table in which c13 is missing but c23 present must not give the same K_V as the full one: perturbed spec (c23 read for c13)
+        df, rec, cols, n = run_vrh_block(static, full)
+        r = z3.Int("r")
+        g = lambda a, b: cols["c%d%d" % (a, b)].elem((r,))
+        wrong = (g(1, 1) + g(2, 2) + g(3, 3) + 2 * (g(1, 2) + g(2, 3) + g(2, 3))) / 9
+        return smt.prove(df.cols["bm_V"].elem((r,)) == wrong, [r >= 0], tier=tier)
+    s.canary("C18.canary.K_V_with_c23_twice", canary)
+
+    def constants():
+        import importlib as _il; U = _il.import_module("cij.util.units")
+        from oracles import phonon as oracle
+        bohr, ry, amu = float(oracle.BOHR_M) if hasattr(oracle, "BOHR_M") else 5.29177210903e-11, float(oracle.RY_J), 1.66053906660e-27
+        want = {"_to_ang3": (bohr * 1e10) ** 3, "_to_ev": ry / 1.602176634e-19, "_to_gpa": ry / bohr ** 3 / 1e9,
+                "_to_gcm3": amu * 1e3 / (bohr * 1e2) ** 3, "_to_kms": 1.0}
+        bad = []
+        for nm, w in want.items():
+            got = float(getattr(U, nm)(1.0))
+            if abs(got - w) > 2e-8 * abs(w):
+                bad.append("%s(1) = %r, independent value %r" % (nm, got, w))
+            got2 = float(numpy.asarray(getattr(U, nm)(numpy.array([2.0, 3.0])))[1])
+            if abs(got2 - 3 * w) > 6e-8 * abs(w):
+                bad.append("%s is not linear: %r" % (nm, got2))
+        if bad:
+            return core.refuted("finite", "; ".join(bad), witness_id="constants", replay={"reproduced": True, "observed": bad})
+        return core.proved("finite", "the five converters are multiplications by bohr^3->A^3, Ry->eV, Ry/bohr^3->GPa, amu/bohr^3->g/cm^3, "
+                                     "sqrt(GPa/(g/cm^3))->km/s = 1 (CODATA-2018 / exact SI values, 2e-8)")
+    s.oblige("C18.unit_constants", constants, ["cij.util.units._to_ang3/_to_ev/_to_gpa/_to_gcm3/_to_kms"], kind="finite")
+
+
 def run(s):
     from click.testing import CliRunner
     static = importlib.import_module("cij.cli.static")
+    vrh_obligations(s, static)
     s.assume("A-QHA (least-squares fit, eulerian strain, v2p), A-PANDAS, A-CLICK, scipy spline")
-    s.undecided_part("everything: the command is a single callback without function boundaries; bounded run-time contract on its printed table only")
+    s.undecided_part("the finite-strain fits, P = -dF/dV, the three interpolation modes, option handling and printing: bounded run-time contract on the printed table only")
     rnd = random.Random(s.seed)
     n = 6 if s.tier == "quick" else 120
     fails, evals, distinct = [], 0, 0
@@ -182,16 +423,20 @@ def run(s):
     s.bounded_standin("C18.run_static_table", "%d synthetic data sets (6-11 volumes listed descending / ascending / shuffled, energies and moduli exactly quadratic in Eulerian strain), "
                       "modes none / volume / pressure in turn, grid sizes 11-401, with/without static table, cubic system option, cell-mass option; seed %d" % (n, s.seed),
                       evals, distinct, fails, ["cli/static.main"])
-    s.min_obligations = 0
+    s.min_obligations = 3
 
 
 MANIFEST = {
-    "engine": "rtc", "category": "exploration",
-    "technique": "bounded stand-in: run-time postcondition on the table printed by the real run-static callback (no deductive obligation)",
-    "text": "Not decided deductively (a single click callback with closure helpers and in-body imports: no function boundary for a contract). The real "
-            "command is run through click's CliRunner on seeded synthetic inputs whose energies and moduli are exactly quadratic in Eulerian strain, "
-            "and its printed table is checked against the property: P = -dF_fit/dV and F = F_fit(V) at the reported V, units A^3 / eV / GPa / g cm^-3, "
-            "input volumes (none) / linspace grid (volume) / requested pressures (pressure), moduli = fit of the table at the row's volume, VRH "
-            "averages and v_p, v_s, v_phi from the row's moduli and density, crystal-system and cell-mass options applied.",
-    "note": "bounded: 6 (quick) / 120 (thorough) data sets; numerical-derivative tolerances scale with the grid step; never counted as discharged.",
+    "engine": "symnp", "category": "other",
+    "technique": "contract-based deductive verification of the mechanically extracted VRH / unit / velocity statements of the callback (executed unchanged on a "
+                 "symbolic table, z3) + finite check of the unit constants; bounded run-time postcondition on the printed table for the rest",
+    "text": "Proved for every table length and all values: the statements of `main` from the VRH block to the velocity block (extracted by AST from the current "
+            "source, nothing rewritten; everything before and after is dropped and stated as such) hand numpy.linalg.inv the symmetric assembly of the "
+            "modulus columns (0 where a column is absent), compute bm_V, bm_R, G_V, G_R as C_iijj/9, 1/S_iijj, (3C_ijij-C_iijj)/30, 15/(6S_ijij-2S_iijj) of "
+            "that matrix and its inverse with Hill = mean, convert V, F, P and density exactly once with their own converters, leave the modulus columns "
+            "untouched, and report v_p, v_s, v_phi = TO_KMS(sqrt(modulus / density[g/cm^3])); the five converters are linear with CODATA / exact-SI "
+            "factors. Bounded: the real command through click's CliRunner on synthetic inputs exactly quadratic in Eulerian strain -- P = -dF_fit/dV, "
+            "F = F_fit(V), units, the three modes, moduli = fit of the table at the row's volume, VRH and velocities, system and cell-mass options.",
+    "note": "A-NUMPY (linalg.inv = matrix inverse; zeros / slice assignment as modelled, cross-checked against real numpy), Reuss<=Hill<=Voigt is C07's Lean "
+            "lemma on the same formulas. bounded: 6 (quick) / 120 (thorough) data sets; never counted as discharged.",
 }
